@@ -29,7 +29,9 @@ TEST_FILES = ["tests/test_signal.py", "tests/test_transforms.py", "tests/test_de
               "tests/test_polarization.py", "tests/test_contrib.py", "tests/test_radio_signal.py",
               "tests/test_readers.py", "tests/test_baseband_readers.py"]
 NEG = [("Neg_Dask_chirpkey.cfg", "OrderIndependent"), ("Neg_Dask_nofftcheck.cfg", "SameAsNumpy"),
-       ("Neg_Dask_eager.cfg", "Lazy"), ("Neg_Dask_numpy.cfg", "StaysDask")]
+       ("Neg_Dask_eager.cfg", "Lazy"), ("Neg_Dask_numpy.cfg", "StaysDask"),
+       ("Neg_Dask_readerblocks.cfg", "SameAsNumpy"), ("Neg_Dask_overwrite.cfg", "InputsStable"),
+       ("Neg_Dask_overwrite2.cfg", "SameAsNumpy")]
 
 
 def _load(path):
@@ -171,8 +173,10 @@ def run(chk):
     drnd = random.Random(drv_seed)
     scheds = ["synchronous", "threads", a_schedule(1), a_schedule(2), "synchronous", a_schedule(3)]
     dd.run_driver(nd, drnd, scheds, out)
+    dd.run_fft_family(nd // 4, drnd, scheds, out)
     dd.run_binary(nd // 6, drnd, out)
     dd.run_concat(nd // 6, drnd, out)
+    dd.run_histories(nd // 4, drnd, out)
     dd.run_readers(drnd, out, REPO, nreads=12 if thorough else 4)
     absorb(out, {"kind": "driver", "seed": drv_seed, "n": nd, "thorough": thorough})
     chk.validated += nd + 2 * (nd // 6)
@@ -302,8 +306,10 @@ def replay(doc):
         drnd = random.Random(src["seed"])
         nd = src["n"]
         dd.run_driver(nd, drnd, ["synchronous", "threads"], res)
+        dd.run_fft_family(nd // 4, drnd, ["synchronous", "threads"], res)
         dd.run_binary(nd // 6, drnd, res)
         dd.run_concat(nd // 6, drnd, res)
+        dd.run_histories(nd // 4, drnd, res)
         dd.run_readers(drnd, res, REPO, nreads=12 if src.get("thorough") else 4)
     else:
         out = os.path.join(SCR, "C09_tests_replay_%d.json" % os.getpid())
